@@ -57,6 +57,7 @@ class Stepper:
         self.env = built.env
         self.fold = E.fold_name(built.case)
         self.actions = actions
+        self.kind = built.case.get("action_type", "array64")
         self.seed = seed
         self.trace = []
         self.k = -1          # -1: reset pending
@@ -78,7 +79,7 @@ class Stepper:
             return True
         mark = len(getattr(env.state, "log", []))
         try:
-            obs, reward, done, info = env.step(E.to_action(self.actions[self.k]))
+            obs, reward, done, info = env.step(E.to_action(self.actions[self.k], self.kind))
         except Exception as exc:  # noqa
             self.trace.append({"exception": type(exc).__name__})
             self.finished = True
